@@ -35,7 +35,7 @@ STUB = ["choice of the running scenario thread (baton scheduler, line events in 
 ASSUMPTIONS = ["population changes in the two round hooks, plus deletions from inside act of the acting agent itself or of an agent created before it (both have already acted), and creations from inside act: the newcomer is a live agent and is expected to handle and act last in that very step, as the pinned tree does",
                "harness subclasses (models/abm_agents.py) run atomically between pre-emption points"]
 FAULT_KINDS = ["act_raised", "preemption", "population_change_in_hook", "agent_deleted_inside_act"]
-PROBES = ["run_again_after_a_failed_run", "act_raised_half_way", "run_cancelled_from_inside", "many_scenario_threads", "class_path_manager_under_schedules", "unhandled_event_in_front_of_a_handled_one", "session_over_abm_managers", "session_over_several_abm_managers", "progress_widget", "model_run_again_with_other_run_spec", "deletion_inside_act", "creation_inside_act", "zero_stop_time", "negative_start", "decimal_dt", "empty_population", "collect_off", "threads_interleaved", "driven_steps"]
+PROBES = ["second_session_after_a_complete_one", "run_again_after_a_failed_run", "act_raised_half_way", "run_cancelled_from_inside", "many_scenario_threads", "class_path_manager_under_schedules", "unhandled_event_in_front_of_a_handled_one", "session_over_abm_managers", "session_over_several_abm_managers", "progress_widget", "model_run_again_with_other_run_spec", "deletion_inside_act", "creation_inside_act", "zero_stop_time", "negative_start", "decimal_dt", "empty_population", "collect_off", "threads_interleaved", "driven_steps"]
 EXHAUSTIVE = {"quick": False, "thorough": False}
 
 
@@ -74,7 +74,8 @@ def generate(spec):
             for key in ("pop", "states", "props", "sends", "acts"):
                 sc[key] = [x for x in sc.get(key, []) if x["k"] <= stop + 1]
             scs.append(sc)
-        return {"property": PROPERTY, "mode": mode, "collect": True, "scenarios": scs, "sched": None, "widget": False}
+        return {"property": PROPERTY, "mode": mode, "collect": True, "scenarios": scs, "sched": None, "widget": False,
+                "second_session": rng.random() < 0.5}
     collect = rng.random() < 0.7
     if mode == "bptk_threads":
         nsc = rng.choice([2, 2, 3])
@@ -240,6 +241,41 @@ def _execute_session(case, res, log):
                 b1.destroy()
             except Exception:
                 pass
+        if case.get("second_session") and not res.violations:
+            # the session is ended and another one is begun on the same scenarios (they have reached their stop time once):
+            # it executes every step again - and after its first step statistics exist for that step only
+            res.probe("second_session_after_a_complete_one")
+            try:
+                b.end_session()
+                for m in models:
+                    w_ = m.world
+                    for d_ in (w_.hook_ops, w_.act_ops, w_.state_script, w_.prop_script, w_.sends, w_.hook_sends):
+                        d_.clear()
+                    w_.calls = []
+                b.begin_session(scenarios=["s0"], scenario_managers=list(names), agents=["a", "b"], agent_states=["idle"])
+                b.run_step()
+                for n, m in enumerate(models):
+                    keys = sorted(float(t) for t in m.data_collector.agent_statistics)
+                    if keys != [float(scs[n]["start"])]:
+                        res.violate("C12.statistics-times", {"scenario": names[n], "mode": "bptk_session (second session, after its first step)",
+                                                             "got": keys[:6], "expected": [float(scs[n]["start"])]})
+                        break
+                for _ in range(scs[0]["stop"] + 3):
+                    o = b.run_step()
+                    if o is None or (isinstance(o, dict) and "msg" in o):
+                        break
+            except Exception as e:
+                res.violate("C12.run-raised", {"mode": "bptk_session (second session)", "exception": type(e).__name__, "message": str(e)[:100]})
+            for n, (sc, m) in enumerate(zip(scs, models)):
+                if res.violations:
+                    break
+                times = [c[1] for c in m.world.calls if c[0] == "begin"]
+                want = [float(t) for t in range(sc["start"], sc["stop"] + 1)]
+                acts_ = [c[2] for c in m.world.calls if c[0] == "act"]
+                n_live = len(m.agents)
+                if times != want or (n_live and sorted(set(acts_)) != want):
+                    res.violate("C12.call-log-differs", {"scenario": names[n], "mode": "bptk_session (second session)", "begin_round_times": times[:8],
+                                                         "expected": want[:8], "acts_at": sorted(set(acts_))[:8]})
         try:
             b.destroy()
         except Exception:
